@@ -1124,15 +1124,12 @@ where
                 return Ok(result);
             }
             Some(0x26 /* & */) => {
-                self.consume('&');
-                if self.peek() == Some(0x26 /* & */) {
-                    self.consume('&');
-                    result.union_operand(first.clone());
+                result.union_operand(first.clone());
+                if self.try_consume_str("&&") {
                     ClassSetOperator::Intersection
                 } else {
-                    // A single '&' is an ordinary ClassSetCharacter following `first`.
-                    result.union_operand(first.clone());
-                    result.codepoints.add_one(0x26 /* & */);
+                    // A single '&' is an ordinary ClassSetCharacter following `first`: leave it
+                    // to the union loop, which also sees a range that begins with it (`[a&-z]`).
                     ClassSetOperator::Union
                 }
             }
